@@ -273,4 +273,110 @@ theorem check_eq (cfg : Config) (dms : Int) (clock : Nat → Int) (subject relat
                 rw [hfm]
                 rfl
 
+/-- TERMINATION of the source's `while queue:` on every store (cycles, self loops, duplicates), rule map and limits: within
+    `fuelBound cfg` iterations -/
+theorem check_terminates (cfg : Config) (dms : Int) (clock : Nat → Int) (subject relation resource : String) (fuel : Nat)
+    (h : fuelBound cfg ≤ fuel) :
+    (Src.rebac_Checker_check (encChecker cfg dms) clock subject relation resource fuel).isSome = true := by
+  rw [check_eq cfg dms clock subject relation resource fuel h]; rfl
+
+/-- the model's adversarial deadline oracles are exactly the clock behaviours: every `hit : Nat → Bool` is `deadlineOfClock` of a
+    clock (start 0, deadline_ms 0, the k-th in-loop reading 1 when `hit k` and 0 otherwise) -/
+theorem every_oracle_is_a_clock (hit : Nat → Bool) :
+    deadlineOfClock (fun i => match i with | 0 => 0 | k + 1 => if hit k then 1 else 0) 0 = hit := by
+  funext k
+  simp only [deadlineOfClock]
+  by_cases hk : hit k = true
+  · simp [hk]
+  · have hk' : hit k = false := by simpa using hk
+    simp [hk']
+
+/-- hence: for every deadline oracle the translated `check`, under a clock with that oracle, is the model's `check` -/
+theorem check_eq_oracle (cfg : Config) (hit : Nat → Bool) (q : Triple) (fuel : Nat) (h : fuelBound cfg ≤ fuel) :
+    ∃ clock : Nat → Int, Src.rebac_Checker_check (encChecker cfg 0) clock q.1 q.2.1 q.2.2 fuel = some (check cfg hit q) := by
+  refine ⟨fun i => match i with | 0 => 0 | k + 1 => if hit k then 1 else 0, ?_⟩
+  rw [check_eq cfg 0 _ q.1 q.2.1 q.2.2 fuel h, every_oracle_is_a_clock hit]
+
+/-! ### `batch_check` -/
+
+/-- `batch_check(triples)` with the j-th actual `self.check` call of the batch given by `chk j`: the model's memo loop -/
+theorem batch_check_eq (self : Src.rebac_Checker) (chk : Nat → String → String → String → Bool) (triples : List Triple) :
+    Src.rebac_Checker_batch_check self chk triples = batchLoop (fun j q => chk j q.1 q.2.1 q.2.2) triples [] := by
+  unfold Src.rebac_Checker_batch_check
+  dsimp only
+  have := forState_batch (fun j q => chk j q.1 q.2.1 q.2.2) triples Dict.empty [] [] 0 (fun k => rfl) rfl
+  simpa [iter_list] using this
+
+/-- … and when those calls are the translated `check` itself (call j under clock `clocks j`, any sufficient budgets): the model's
+    `batchCheck` under the induced oracles -/
+theorem batch_check_model (cfg : Config) (dms : Int) (clocks : Nat → Nat → Int) (fuel : Nat) (h : fuelBound cfg ≤ fuel)
+    (triples : List Triple) :
+    Src.rebac_Checker_batch_check (encChecker cfg dms)
+        (fun j s r o => (Src.rebac_Checker_check (encChecker cfg dms) (clocks j) s r o fuel).getD false) triples =
+      batchCheck cfg (fun j => deadlineOfClock (clocks j) dms) triples := by
+  rw [batch_check_eq]
+  unfold batchCheck
+  congr 1
+  funext j q
+  rw [check_eq cfg dms (clocks j) q.1 q.2.1 q.2.2 fuel h]
+  rfl
+
+/-! ### C12's statements, about the translated source -/
+
+/-- SOUND: `true` from the translated `check` (any sufficient budget, any clock) is a derivation within `max_depth` -/
+theorem check_sound (cfg : Config) (dms : Int) (clock : Nat → Int) (s r o : String) (fuel : Nat) (h : fuelBound cfg ≤ fuel)
+    (ht : Src.rebac_Checker_check (encChecker cfg dms) clock s r o fuel = some true) :
+    ∃ d : Nat, (d : Int) ≤ cfg.maxDepth ∧ Derivable cfg d (s, r, o) := by
+  rw [check_eq cfg dms clock s r o fuel h] at ht
+  exact C12.c12_sound cfg _ _ (Option.some.inj ht)
+
+/-- COMPLETE: an uncut run answers `true` for everything derivable within `max_depth` -/
+theorem check_complete (cfg : Config) (dms : Int) (clock : Nat → Int) (s r o : String) (fuel : Nat) (h : fuelBound cfg ≤ fuel)
+    (hlim : C12.NoLimitHit cfg (deadlineOfClock clock dms) (s, r, o))
+    (hd : ∃ d : Nat, (d : Int) ≤ cfg.maxDepth ∧ Derivable cfg d (s, r, o)) :
+    Src.rebac_Checker_check (encChecker cfg dms) clock s r o fuel = some true := by
+  rw [check_eq cfg dms clock s r o fuel h, C12.c12_complete cfg _ _ hlim hd]
+
+/-- LIMITS FAIL CLOSED: `max_nodes ≤ 0`, a negative `max_depth`, or a first in-loop clock reading past the deadline give `False` -/
+theorem check_limits_fail_closed (cfg : Config) (dms : Int) (clock : Nat → Int) (s r o : String) (fuel : Nat) (h : fuelBound cfg ≤ fuel) :
+    (cfg.maxNodes ≤ 0 → Src.rebac_Checker_check (encChecker cfg dms) clock s r o fuel = some false) ∧
+    (cfg.maxDepth < 0 → Src.rebac_Checker_check (encChecker cfg dms) clock s r o fuel = some false) ∧
+    (clock 1 > clock 0 + dms * 1000000 → Src.rebac_Checker_check (encChecker cfg dms) clock s r o fuel = some false) := by
+  rw [check_eq cfg dms clock s r o fuel h]
+  obtain ⟨_, h2, h3, h4⟩ := C12.c12_limits_fail_closed cfg (deadlineOfClock clock dms) (s, r, o)
+  refine ⟨fun hn => by rw [h2 hn], fun hn => by rw [h3 hn], fun hn => by rw [h4 (by simp [deadlineOfClock, hn])]⟩
+
+/-- BATCH = MAP: when every call of the batch sees the same clock behaviour, `batch_check` is the list of the individual checks -/
+theorem batch_eq_map (cfg : Config) (dms : Int) (clock : Nat → Int) (fuel : Nat) (h : fuelBound cfg ≤ fuel) (triples : List Triple) :
+    Src.rebac_Checker_batch_check (encChecker cfg dms)
+        (fun _ s r o => (Src.rebac_Checker_check (encChecker cfg dms) clock s r o fuel).getD false) triples =
+      triples.map (check cfg (deadlineOfClock clock dms)) := by
+  rw [batch_check_model cfg dms (fun _ => clock) fuel h]
+  exact C12.c12_batch_eq_map cfg _ triples
+
+/-! non-vacuity: the example store of Properties/C12.lean, loaded by `add`; the budget it needs -/
+example : fuelBound C12.exCfg = 1102 := by decide
+example : (Src.rebac_Store_direct_for_resource (storeOf C12.exCfg.tuples) "parent" "doc:d1").length = 1 := by
+  rw [store_direct_for_resource_eq]; decide
+
 end Rbacx.Translated
+
+#print axioms Rbacx.Translated.obj_classes
+#print axioms Rbacx.Translated.split_ref_eq
+#print axioms Rbacx.Translated.store_direct_for_resource_eq
+#print axioms Rbacx.Translated.store_by_subject_eq
+#print axioms Rbacx.Translated.checker_init_defaults
+#print axioms Rbacx.Translated.caveat_holds_eq
+#print axioms Rbacx.Translated.direct_allowed_eq
+#print axioms Rbacx.Translated.lookup_expr_eq
+#print axioms Rbacx.Translated.expand_eq
+#print axioms Rbacx.Translated.check_eq
+#print axioms Rbacx.Translated.check_terminates
+#print axioms Rbacx.Translated.every_oracle_is_a_clock
+#print axioms Rbacx.Translated.check_eq_oracle
+#print axioms Rbacx.Translated.batch_check_eq
+#print axioms Rbacx.Translated.batch_check_model
+#print axioms Rbacx.Translated.check_sound
+#print axioms Rbacx.Translated.check_complete
+#print axioms Rbacx.Translated.check_limits_fail_closed
+#print axioms Rbacx.Translated.batch_eq_map
